@@ -230,6 +230,10 @@ impl MessageConsumer for ExtSink {
 struct LiveConsumer {
     consumer: IggyConsumer,
     shared: IggySharedMut<Box<dyn Client>>,
+    /// the server-side id of the consumer's connection: "everything this connection sent has been processed" = the server has
+    /// removed the client after the disconnect (a consumer dropped in mid-request leaves its connection one answer behind, so an
+    /// answered request proves nothing about the one before it)
+    client_id: u32,
 }
 
 impl SdkLens {
@@ -367,7 +371,7 @@ impl SdkLens {
                             }
                         })
                     };
-                    let LiveConsumer { consumer, shared } = lc;
+                    let LiveConsumer { consumer, shared, client_id } = lc;
                     rec.pause.store(false, Ordering::SeqCst);
                     rec.parked.store(false, Ordering::SeqCst);
                     rec.resume.notify_waiters();
@@ -383,6 +387,7 @@ impl SdkLens {
                         let _ = c.disconnect().await;
                     }
                     drop(shared);
+                    wait_client_gone(&admin, client_id).await;
                     rec.wait_quiet().await;
                     let (obs, upto) = self.observe_consistent(&admin, scn, &encryptor, &rec).await?;
                     for e in rec.take_first(upto) {
@@ -472,7 +477,7 @@ impl SdkLens {
                 }
                 "recreate" => {
                     if let Some(lc) = live.take() {
-                        let LiveConsumer { consumer, shared } = lc;
+                        let LiveConsumer { consumer, shared, client_id } = lc;
                         drop(consumer);
                         rec.wait_quiet().await;
                         {
@@ -483,6 +488,7 @@ impl SdkLens {
                             let _ = c.disconnect().await;
                         }
                         drop(shared);
+                        wait_client_gone(&admin, client_id).await;
                     }
                     rec.wait_quiet().await;
                     let (obs, upto) = self.observe_consistent(&admin, scn, &encryptor, &rec).await?;
@@ -504,7 +510,9 @@ impl SdkLens {
 
     async fn make_consumer(&self, scn: &Scenario, tcp: std::net::SocketAddr, rec: &Rec, encryptor: &Option<Arc<EncryptorKind>>) -> Result<LiveConsumer, String> {
         let c = &scn.consumer;
-        let client = IggyClient::create(Box::new(rec.client(srv::tcp_root(tcp).await?, "consumer", encryptor)), None, encryptor.clone());
+        let raw = srv::tcp_root(tcp).await?;
+        let client_id = raw.get_me().await.map(|m| m.client_id).map_err(|e| format!("get_me: {e}"))?;
+        let client = IggyClient::create(Box::new(rec.client(raw, "consumer", encryptor)), None, encryptor.clone());
         let shared = client.client();
         let mut b = if c.kind == "group" {
             client.consumer_group("vgroup", "1", "1").map_err(|e| e.to_string())?
@@ -546,7 +554,7 @@ impl SdkLens {
         let mut consumer = b.build();
         consumer.init().await.map_err(|e| format!("consumer init: {e}"))?;
         drop(client);
-        Ok(LiveConsumer { consumer, shared })
+        Ok(LiveConsumer { consumer, shared, client_id })
     }
 
     /// The observation together with the number of recorded events it is consistent with: the stored offsets are read while no
@@ -612,6 +620,16 @@ impl SdkLens {
         }
         let stored = self.observe_stored(admin, scn).await;
         Ok(json!({"logs": logs, "stored": stored}))
+    }
+}
+
+/// waits (generously) until the server has removed the client: everything its connection sent has then been processed
+async fn wait_client_gone(admin: &TcpClient, client_id: u32) {
+    for _ in 0..10_000 {
+        if matches!(admin.get_client(client_id).await, Ok(None)) {
+            return;
+        }
+        tokio::time::sleep(Duration::from_millis(2)).await;
     }
 }
 
